@@ -27,6 +27,7 @@ type Profile struct {
 	VarEqual    bool
 	MapNShare   int
 	UnobsWrites bool // allow writes to unobserved vars from inside a pass
+	Cycles      bool // AddInput may close a cycle
 	Memo        int  // share of binds that are BindMemoized (out of 100)
 	WPurge      int  // weight of cache Purge/Clear operations
 }
@@ -282,10 +283,11 @@ func (g *Gen) Next() Op {
 				if len(decl) > 0 && g.R.Chance(1, 2) {
 					return Op{K: "RemoveInput", A: m, B: g.pick(decl)}
 				}
-				// only nodes created before the MapN, so that no cycle is possible
+				// only nodes created before the MapN, so that no cycle is possible -- except in
+				// the stream that is after rejections
 				var earlier []int
 				for _, n := range nodes {
-					if n < m {
+					if n < m || (g.P.Cycles && n != m) {
 						earlier = append(earlier, n)
 					}
 				}
@@ -317,6 +319,14 @@ func RunRandom(r *hx.Rand, p Profile) (*Exec, *Monitor) {
 		s := e.Do(op)
 		m.AfterOp(op, s)
 		if s.Crashed {
+			break
+		}
+		if m.Cyclic && (len(m.Findings) > 0 || len(e.Ops) > m.CyclicAt+6) {
+			break
+		}
+		if m.Rejected {
+			// the state after a structural rejection is a recorded finding; what later
+			// operations do on it says nothing more (and can hang)
 			break
 		}
 	}
